@@ -312,9 +312,16 @@ impl Subscriber for SubscriberService {
             }))
         };
 
+        // If the subscription is deleted while we wait, no more messages can arrive.
+        let deleted_fut = async {
+            subscription.deleted().await;
+            Err::<Response<PullResponse>, Status>(subscription_not_found(&subscription_name))
+        };
+
         tokio::select! {
             response = messages_fut => response,
-            response = timeout_fut => response
+            response = timeout_fut => response,
+            response = deleted_fut => response
         }
     }
 
@@ -358,7 +365,8 @@ impl Subscriber for SubscriberService {
 
                     // Then, pull the available messages from the subscription.
                     let pulled = match subscription.pull_messages(max_count).await {
-                        Err(PullMessagesError::Closed) => return,
+                        // The subscription's actor is gone, which means it was deleted.
+                        Err(PullMessagesError::Closed) => break,
                         Ok(pulled) => pulled,
                     };
 
